@@ -762,7 +762,7 @@ pub fn run_pair(gi: usize, gj: usize, g: &[DataType], nmax: usize, full_upto: us
             for f in fc {
                 emit(st, f, "column", codes, Layout::Compact);
             }
-            for layout in [Layout::Sliced, Layout::Garbage] {
+            for layout in [Layout::Sliced, Layout::Garbage, Layout::Truncated] {
                 let fs = p.eval_column(codes, layout);
                 n_eval += 2;
                 for f in p.classify(fs, compact_clean, layout) {
